@@ -20,6 +20,8 @@ pub const TOKEN: &str = "token";
 pub const TOKEN2: &str = "token2";
 pub const DENOM: &str = "stake";
 pub const OTHER: &str = "other";
+/// a different bank denom that equals the stake denom up to letter case
+pub const CASED: &str = "STAKE";
 
 /// actors: two stakers and a donor who never stakes
 pub const ACTORS: [&str; 3] = ["U1", "U2", "DON"];
@@ -76,6 +78,8 @@ pub enum Funds {
     /// exactly the configured native denom
     Right(Amt),
     WrongDenom,
+    /// one coin of a denom that differs from the configured one only in letter case
+    CaseDenom,
     TwoDenoms,
     None,
 }
@@ -270,6 +274,7 @@ impl StakeModel {
         match f {
             Funds::Right(x) => vec![coin(x.0, DENOM)],
             Funds::WrongDenom => vec![coin(1, OTHER)],
+            Funds::CaseDenom => vec![coin(1, CASED)],
             Funds::TwoDenoms => vec![coin(1, OTHER), coin(1, DENOM)],
             Funds::None => vec![],
         }
@@ -280,6 +285,7 @@ fn label(act: &Act) -> &'static str {
     match act {
         Act::Bond { funds: Funds::Right(_), .. } => "Bond(native)",
         Act::Bond { funds: Funds::WrongDenom, .. } => "Bond(wrong denom)",
+        Act::Bond { funds: Funds::CaseDenom, .. } => "Bond(denom differing in letter case)",
         Act::Bond { funds: Funds::TwoDenoms, .. } => "Bond(two denoms)",
         Act::Bond { funds: Funds::None, .. } => "Bond(no funds)",
         Act::Cw20Bond { token: 0, .. } => "Send{Bond}(configured token)",
@@ -331,6 +337,7 @@ impl Model for StakeModel {
         }
         for i in 0..2 {
             w.set_balance(&a(ACTORS[i]), OTHER, 2);
+            w.set_balance(&a(ACTORS[i]), CASED, 2);
         }
         if cfg.cw20 {
             let o1 = mk_token(&mut w, TOKEN, (0..3).map(|i| (i, cfg.funds[i])).collect());
@@ -400,6 +407,7 @@ impl Model for StakeModel {
                 }
                 if cfg.adversarial {
                     out.push(Act::Bond { u, funds: Funds::WrongDenom });
+                    out.push(Act::Bond { u, funds: Funds::CaseDenom });
                     out.push(Act::Bond { u, funds: Funds::TwoDenoms });
                     out.push(Act::Bond { u, funds: Funds::None });
                 }
